@@ -7,6 +7,9 @@ package main
 //   pat q <scheme> <criteria> <fuzzy> <v2> <ext> <case> <norm> <fwd> <ast> <query> <nth> <delim> <lines>
 //        => <per-line results without positions> <per-line results with positions>
 //
+//   pat qh <scheme> <criteria> <fuzzy> <v2> <ext> <case> <norm> <fwd> <query> <nths ";"-joined> <delim> <lines>
+//        => per nth expression (each a later minor revision, the SAME items throughout): per-line results without positions, " "-joined
+//
 //   <termsets> sets ";"-joined, terms "&"-joined, term = typ:inv:cs:norm:text ; "_" if none
 //   <ast>      sets ";"-joined, atoms "&"-joined, atom = kind:inv:text, kind in f e b p s q ; "_" = no AST (raw query)
 //   per-line results: ";"-joined entries, "-" = no match, else <b.e+b.e...>:<p0.p1.p2.p3>
@@ -84,6 +87,50 @@ func patEval(op string, args []string) string {
 			for idx, line := range decStrList(args[12]) {
 				item := fzf.VerifNewItem(line, int32(idx))
 				ok, offs, pts, _, _ := p.VerifMatchItem(item, withPos, patSlab)
+				if !ok {
+					rs = append(rs, "-")
+					continue
+				}
+				os := []string{}
+				for _, o := range offs {
+					os = append(os, fmt.Sprintf("%d.%d", o[0], o[1]))
+				}
+				rs = append(rs, fmt.Sprintf("%s:%d.%d.%d.%d", strings.Join(os, "+"), pts[0], pts[1], pts[2], pts[3]))
+			}
+			if len(rs) == 0 {
+				outs = append(outs, "_")
+			} else {
+				outs = append(outs, strings.Join(rs, ";"))
+			}
+		}
+		return strings.Join(outs, " ")
+	case "qh":
+		setScheme(args[0])
+		fzf.VerifSetCriteria(decInts(args[1]))
+		delim := parseDelim(args[10])
+		if patSlab == nil {
+			c := fzf.VerifConstants()
+			patSlab = util.MakeSlab(c["slab16Size"], c["slab32Size"])
+		}
+		items := []*fzf.Item{}
+		for idx, line := range decStrList(args[11]) {
+			items = append(items, fzf.VerifNewItem(line, int32(idx)))
+		}
+		outs := []string{}
+		for k, nthS := range strings.Split(args[9], ";") {
+			var nth []fzf.Range
+			if nthS != "-" {
+				var err error
+				nth, err = fzf.VerifSplitNth(string(decBytes(nthS)))
+				if err != nil {
+					return "reject"
+				}
+			}
+			p := fzf.VerifBuildPatternRev(args[2] == "1", args[3] == "1", args[4] == "1", caseOf(args[5]), args[6] == "1", args[7] == "1",
+				false, true, nth, delim, decRunes(args[8]), k)
+			rs := []string{}
+			for _, item := range items {
+				ok, offs, pts, _, _ := p.VerifMatchItem(item, false, patSlab)
 				if !ok {
 					rs = append(rs, "-")
 					continue
@@ -244,7 +291,37 @@ func patGen(r *rand.Rand, count int, emit func(op string, args ...string)) {
 	for i := 0; i < count; i++ {
 		fuzzy, v2, ext := r.Intn(3) > 0, r.Intn(3) > 0, r.Intn(5) > 0
 		cm, norm := itoa(r.Intn(3)), r.Intn(3) > 0
-		switch r.Intn(8) {
+		switch r.Intn(9) {
+		case 8:
+			// the same items searched under a sequence of field expressions
+			lines := genLines(r)
+			for len(lines) < 3 {
+				lines = append(lines, genLines(r)...)
+			}
+			a := genAST(r, lines)[0][0]
+			query := a.text
+			if ext && r.Intn(2) == 0 {
+				query = renderAST(genAST(r, lines), fuzzy)
+			}
+			exprs := []string{"1", "2", "-1", "2..", "..2", "1,3", "-2..-1", "2..3", "-"}
+			nths := []string{}
+			for k := 2 + r.Intn(3); k > 0; k-- {
+				e := exprs[r.Intn(len(exprs))]
+				if e != "-" {
+					e = encStr(e)
+				}
+				nths = append(nths, e)
+			}
+			delim := "awk"
+			if r.Intn(2) == 0 {
+				delim = "d:" + encStr([]string{":", "/", " ", "-"}[r.Intn(4)])
+			}
+			ls := make([][]byte, len(lines))
+			for k, l := range lines {
+				ls[k] = []byte(l)
+			}
+			emit("qh", schemes[r.Intn(3)], crits[r.Intn(len(crits))], itoa(b2i(fuzzy)), itoa(b2i(v2)), itoa(b2i(ext)), cm,
+				itoa(b2i(norm)), itoa(b2i(r.Intn(4) > 0)), encRunes([]rune(query)), strings.Join(nths, ";"), delim, encStrList(ls))
 		case 0:
 			emit("parse", itoa(b2i(fuzzy)), cm, itoa(b2i(norm)), encRunes([]rune(rawQuery(r))))
 		case 1:
